@@ -1302,4 +1302,77 @@ theorem old_deprecated_backslash_counterexample :
 theorem old_deprecated_quote_counterexample :
     lexC ('"' :: (oldEscDep "\\\" x".toList ++ ['"'])) ≠ [.str false] := by decide
 
+/-! ## the bytes on disk; stages after the filter; length
+
+The theorems above are about the *rendered* text. They are theorems about the generated file because the writer is the
+identity (`written`, compared with the real `FileReaderWriter` on every text of every run). They would not survive a stage
+that deletes characters from the rendered file: the filter looks for the exact sequences `*/`, `\u`, backslash + end of
+line, and an invisible character between the two halves keeps them apart only as long as it is there. Deleting the same
+character *before* the filter is harmless (the theorems hold for every text). Likewise `string_literal` has to escape
+*every* character of its table, however many there are. -/
+
+/-- **written_block_comment_lexC**: the `/** … */` comment as it stands in the file -/
+theorem written_block_comment_lexC (ind : Nat) (s pre suf : List Char) (tp : List Tok) (hpre : run true init pre = (init, tp)) :
+    lexC (written (pre ++ commentBlock blockStyle ind (cfLines s) ++ suf)) = tp ++ [.comment] ++ lexC suf :=
+  block_comment_lexC ind s pre suf tp hpre
+
+/-- **written_line_comment_lexC**: the `///` comment as it stands in the file -/
+theorem written_line_comment_lexC (ind : Nat) (s pre suf : List Char) (tp : List Tok) (hpre : run true init pre = (init, tp)) :
+    lexC (written (pre ++ commentBlock lineStyle ind (cfLines s) ++ '\n' :: suf)) =
+      tp ++ ((cfLines s).tail.map (fun _ => lineSepToks ind)).flatten ++ [.comment, .ch '\n'] ++ lexC suf :=
+  line_comment_lexC ind s pre suf tp hpre
+
+/-- **erase_before_filter_contained**: taking a character out of the text before the filter sees it is harmless -/
+theorem erase_before_filter_contained (z : Char) (sp : Bool) (ind : Nat) (s : List Char) :
+    run sp init (commentBlock blockStyle ind (cfLines (eraseChar z s))) = (init, [.comment]) :=
+  block_comment_contained sp ind (eraseChar z s)
+
+/-- … taking it out of the rendered file is not: `*` U+FEFF `/` is no closer for the filter, and is one afterwards -/
+theorem erase_after_filter_block_counterexample :
+    noPair closerP "ends *\uFEFF/ int injected;".toList = true ∧
+    lexC ("int y;\n".toList ++ eraseChar '\uFEFF' (commentFilter blockStyle "ends *\uFEFF/ int injected;".toList) ++ "\nint x;".toList)
+      ≠ lexC "int y;\n".toList ++ [.comment] ++ lexC "\nint x;".toList := by decide
+
+/-- … a `///` line that ends in backslash, U+200B swallows the next generated line once the U+200B is gone -/
+theorem erase_after_filter_line_counterexample :
+    lexC (eraseChar '\u200B' (commentFilter lineStyle "path is C:\\\u200B".toList) ++ "\nint x;\n".toList) = [.comment, .ch '\n'] := by decide
+
+/-- … and backslash, NUL, `u002a/` is the end of the Javadoc comment for javac once the NUL is gone -/
+theorem erase_after_filter_java_counterexample :
+    lexJava (commentFilter blockStyle "\\\x00u002a/ x".toList) = some [.comment] ∧
+    lexJava (eraseChar '\x00' (commentFilter blockStyle "\\\x00u002a/ x".toList)) ≠ some [.comment] := by decide
+
+theorem escDepN_enough (n : Nat) (s : List Char) (h : (s.filter needsEsc).length ≤ n) : escDepN n s = escDep s := by
+  induction s generalizing n with
+  | nil => rfl
+  | cons c r ih =>
+    by_cases hc : needsEsc c = true
+    · simp only [List.filter_cons, hc, if_true, List.length_cons] at h
+      cases n with
+      | zero => omega
+      | succ k =>
+        simp only [escDepN, hc, if_true, escDep, List.flatMap_cons]
+        rw [ih k (by omega)]; rfl
+    · simp only [List.filter_cons, hc] at h
+      have hget : tableGet escTable c = none := by
+        simp only [needsEsc] at hc
+        cases hg : tableGet escTable c with
+        | none => rfl
+        | some e => simp [hg] at hc
+      simp only [escDepN, hc, escDep, List.flatMap_cons]
+      rw [ih n (by simpa using h)]
+      simp [escChar, hget, escDep]
+
+/-- **limited_escape_wellformed**: an escaper that stops after `n` escape sequences is as good as `string_literal` on every
+    message with at most `n` characters to escape — which is why short messages cannot tell them apart -/
+theorem limited_escape_wellformed (n : Nat) (m : List Char) (h : (m.filter needsEsc).length ≤ n) :
+    run true init ('"' :: (escDepN n m ++ ['"'])) = (init, [.str false]) := by
+  rw [escDepN_enough n m h]; exact deprecated_literal_wellformed m
+
+/-- … and not on the first longer one: the 17th quote of a message ends the literal when only 16 are escaped -/
+theorem limited_escape_counterexample :
+    lexC ('"' :: (escDepN 16 (List.replicate 17 '"') ++ ['"'])) ≠ [.str false] ∧
+    lexC ('"' :: (escDepN 16 (List.replicate 16 '"') ++ ['"'])) = [.str false] ∧
+    lexC ('"' :: (escDepN 16 (List.replicate 17 '\\') ++ ['"'])) = [.err] := by decide
+
 end Pydjinni.C12
